@@ -24,16 +24,25 @@ pub struct Case14 {
     pub limit_via_cli: bool,
     pub tests: Vec<T14>,
     /// index of a test case that carries `wait: <document limit + 700 ms>`: the document deadline
-    /// passes while scrut waits, the test cases after it must not run (and pass) any more
+    /// passes while scrut waits: this test case and the ones after it must not pass any more
     #[serde(default)]
     pub deadline_wait: Option<u8>,
     /// how slow commands are written: 0 `sleep N`, 1 SIGTERM ignored, 2 SIGTERM / SIGINT handled,
     /// 3 background child + wait, 4 subshell
     #[serde(default)]
     pub cmd_style: u8,
+    /// Markdown: a `detached: true` test case (no result of its own) stands before the others
+    #[serde(default)]
+    pub detached_first: bool,
 }
 
-fn command(sleep_s: u64, style: u8) -> String {
+/// every test case has its own command text (`: tN` in front) so that the report can be
+/// attributed test case by test case
+fn command(i: usize, sleep_s: u64, style: u8) -> String {
+    format!(": t{i}; {}", command_body(sleep_s, style))
+}
+
+fn command_body(sleep_s: u64, style: u8) -> String {
     if sleep_s == 0 {
         return "true".to_string();
     }
@@ -86,10 +95,12 @@ fn case_strategy() -> BoxedStrategy<Case14> {
                 tests: raw.iter().map(|(t, _)| T14 { timeout_ms: if cram { None } else { *t }, sleep_s: 0 }).collect(),
                 deadline_wait: None,
                 cmd_style,
+                detached_first: !cram && raw[0].1 % 3 == 0,
             };
-            // deadline-crossing wait scenario (Markdown, finite document limit, a follower exists)
-            if !cram && raw.len() >= 2 && raw[0].1 % 2 == 0 && doc_limit_ms.map(|l| l > 0).unwrap_or(false) {
-                let w = (raw[1].1 as usize) % (raw.len() - 1);
+            // deadline-crossing wait scenario (Markdown, finite document limit); the waiting test
+            // case may be the last one of the document
+            if !cram && raw[0].1 % 2 == 0 && doc_limit_ms.map(|l| l > 0).unwrap_or(false) {
+                let w = (raw[raw.len() - 1].1 as usize) % raw.len();
                 for t in c.tests.iter_mut() {
                     t.timeout_ms = None;
                     t.sleep_s = 0;
@@ -180,11 +191,14 @@ fn check_case(c: &Case14) -> V {
     let mut args: Vec<String> = vec!["test".into(), "-r".into(), "json".into(), "--no-color".into()];
     if c.cram {
         for (i, t) in c.tests.iter().enumerate() {
-            doc.push_str(&format!("test {i}\n  $ {}\n\n", command(t.sleep_s, c.cmd_style)));
+            doc.push_str(&format!("test {i}\n  $ {}\n\n", command(i, t.sleep_s, c.cmd_style)));
         }
     } else {
         if let (Some(l), false) = (c.doc_limit_ms, c.limit_via_cli) {
             doc.push_str(&format!("---\ntotal_timeout: {}\n---\n\n", fmt_ms(l)));
+        }
+        if c.detached_first {
+            doc.push_str("# detached\n\n```scrut {detached: true}\n$ : detached; true\n```\n\n");
         }
         for (i, t) in c.tests.iter().enumerate() {
             let cfg = if c.deadline_wait == Some(i as u8) {
@@ -194,7 +208,7 @@ fn check_case(c: &Case14) -> V {
             };
             doc.push_str(&format!(
                 "# test {i}\n\n```scrut{cfg}\n$ {}\n```\n\n",
-                command(t.sleep_s, c.cmd_style)
+                command(i, t.sleep_s, c.cmd_style)
             ));
         }
     }
@@ -222,6 +236,7 @@ fn check_case(c: &Case14) -> V {
         .label_if(abort_at.is_some(), "expects_timeout")
         .label_if(c.limit_via_cli, "limit_via_command_line")
         .label_if(c.deadline_wait.is_some(), "deadline_passes_during_wait")
+        .label_if(c.detached_first, "detached_test_case_first")
         .label_if(abort_at.is_some() && matches!(c.cmd_style, 1 | 2), "timed_out_command_traps_sigterm")
         .label_if(abort_at.is_some() && matches!(c.cmd_style, 3 | 4), "timed_out_command_has_child_process")
         .label_if(
@@ -229,16 +244,25 @@ fn check_case(c: &Case14) -> V {
             "document_limit_shorter_than_test_limit",
         );
     let describe = || format!("args: {:?}\nwall {:.2}s (model: {:.2}s)\n{doc}", &args[1..], run.wall.as_secs_f64(), total_expected_ms as f64 / 1000.0);
-    let kinds = match json_result_kinds(&run.stdout) {
+    let all_results = match json_results(&run.stdout) {
         Ok(k) => k,
         Err(e) => return V::fail(format!("no JSON report (exit {:?}): {e}\nstderr: {}\n{}", run.code, truncate(&run.stderr, 400), describe())),
     };
+    // a detached test case has at most one result (scrut reports one when the document is cut
+    // short, none otherwise); whatever it is, it is not what this property is about
+    let detached_results = all_results.iter().filter(|(cmd, _)| cmd == "detached").count();
+    if detached_results > 1 {
+        return V::fail(format!("{detached_results} results for the one detached test case\n{}", describe()));
+    }
+    let attributed: Vec<(String, String)> = all_results.into_iter().filter(|(cmd, _)| cmd != "detached").collect();
+    let kinds: Vec<String> = attributed.iter().map(|(_, k)| k.clone()).collect();
     if let Some(w) = c.deadline_wait {
-        // the deadline passes during the wait of test w: test cases before it succeed, the ones
-        // after it are aborted / skipped; the waiting test itself may be reported either way
+        // the deadline passes during the wait of test w: test cases before it succeed; the waiting
+        // one does not get to run inside the limit any more, it and the ones after it are
+        // aborted / skipped
         let w = w as usize;
         for (i, k) in kinds.iter().enumerate() {
-            let ok = if i < w { k == "success" } else if i == w { k == "success" || k == "timeout" } else { k == "timeout" || k == "skipped" };
+            let ok = if i < w { k == "success" } else { k == "timeout" || k == "skipped" };
             if !ok {
                 return V::fail(format!(
                     "test {i}: result kind {k} although the document limit elapsed while scrut waited before test {w} (kinds {:?}, exit {:?})\n{}",
@@ -267,6 +291,12 @@ fn check_case(c: &Case14) -> V {
     } else {
         if kinds != expected {
             return V::fail(format!("result kinds {:?}, the effective-limit model says {:?} (exit {:?})\n{}", kinds, expected, run.code, describe()));
+        }
+        // .. and each verdict belongs to the test case it is reported for
+        for (i, (cmd, kind)) in attributed.iter().enumerate() {
+            if cmd != &format!("test {i}") {
+                return V::fail(format!("result {i} ({kind}) is reported for the test case {cmd:?}, not for test case {i} (results: {:?})\n{}", attributed, describe()));
+            }
         }
         let want = if abort_at.is_some() { 50 } else { 0 };
         if run.code != Some(want) {
